@@ -7,8 +7,7 @@ property (e.g. the convergence test, the spectral back-transformations)."""
 from .facts import AnalysisBroken
 
 COMMUTATIVE = {'+', '*', '==', '!=', '&&', '||', 'max', 'min', 'cwiseMax', 'cwiseMin'}
-TRANSPARENT_METHODS = {'array', 'matrix', 'noalias', 'eval', 'derived', 'const_cast_derived', 'cast', 'template cast',
-                       'nestedExpression'}
+TRANSPARENT_METHODS = {'array', 'matrix', 'noalias', 'eval', 'derived', 'const_cast_derived', 'nestedExpression'}
 
 
 def single_defs(fn):
@@ -118,8 +117,8 @@ def sym(fn, n, inline=True, _defs=None, _depth=0):
             op, ops = '<', [ops[1], ops[0]]
         elif op == '>=' and len(ops) == 2:
             op, ops = '<=', [ops[1], ops[0]]
-        if op in COMMUTATIVE and len(ops) == 2 and repr(ops[1]) < repr(ops[0]):
-            ops = [ops[1], ops[0]]
+        # overloaded operators are NOT reordered: a matrix product does not commute (match() tries both orders
+        # where a pattern says the operator is commutative)
         if op == '-' and len(ops) == 1:
             return ('u-', ops[0])
         return (op,) + tuple(ops)
